@@ -15,7 +15,9 @@ def sub_wf(with_alt):
           'steps': {'w': {'kind': 'plugin', 'pstep': 'work', 'src': 'w', 'fields': {'input': tmap({'id': ref('input.id')})}}},
           'outputs': {'success': tmap({'tok': ref('steps.w.outputs.success.tok'), 'n': ref('steps.w.outputs.success.n')})}}
     if with_alt:
-        wf['outputs']['alt'] = tmap({'tok': ref('steps.w.outputs.alt.tok'), 'n': ref('steps.w.outputs.alt.n')})
+        # shaped differently from "success": the loop's failure report declares its data as success-shaped results, so
+        # the data of an item that ended here must not appear in it
+        wf['outputs']['alt'] = tmap({'why': ref('steps.w.outputs.alt.tok'), 'code': ref('steps.w.outputs.alt.n')})
     return wf
 
 
@@ -97,8 +99,8 @@ FE_CFG = '''SPECIFICATION FairSpec
 CONSTANTS N = %d
           Par = %d
           AbortedCountAsFailed = TRUE
-INVARIANTS WithinParallelism SemMatches SuccessOnlyIfAllOk SuccessOnlyIfNoneFailedOrClosed FailureOnlyIfSomeErr NoItemLostOnSuccess AtMostOneCompletion CompletionAfterClose
-PROPERTY CloseReturns
+INVARIANTS WithinParallelism SemMatches SuccessOnlyIfAllOk SuccessOnlyIfNoneFailedOrClosed FailureOnlyIfSomeErr NoItemLostOnSuccess AtMostOneCompletion CompletionAfterClose CountersInv
+PROPERTY CloseReturns CountersSpec
 CHECK_DEADLOCK FALSE
 '''
 
@@ -115,7 +117,30 @@ def model_part(ctx):
             ctx.cov(states=st.get('distinct', 0), transitions=st.get('generated', 0))
 
 
+def unbounded_part(ctx):
+    """the item pool for ANY number of items and ANY parallelism: ForeachCounters.tla (the counter abstraction that
+    ForeachStep.tla refines - PROPERTY CountersSpec above) has an inductive invariant, discharged by Apalache:
+    Init => IndInv, IndInv /\\ Next => IndInv', IndInv => Safety; with the engine before repair 503c7f3 (aborted items
+    not counted as failed) the induction step must fail (non-vacuity)"""
+    import concurrent.futures as cf
+    import vlib
+    obligations = [('Init => IndInv', ['--cinit=ConstInit', '--init=Init', '--inv=IndInv', '--length=0'], 'ok'),
+                   ("IndInv /\\ Next => IndInv'", ['--cinit=ConstInit', '--init=IndInit', '--inv=IndInv', '--length=1'], 'ok'),
+                   ('IndInv => Safety', ['--cinit=ConstInit', '--init=IndInit', '--inv=Safety', '--length=0'], 'ok'),
+                   ('before repair 503c7f3 the induction step fails', ['--cinit=ConstInitBeforeRepair', '--init=IndInit', '--inv=IndInv', '--length=1'], 'error')]
+    with cf.ThreadPoolExecutor(max_workers=4) as ex:
+        res = list(ex.map(lambda o: vlib.apalache('ForeachCounters', o[1], ctx.work), obligations))
+    proved = 0
+    for (name, _, want), got in zip(obligations, res):
+        if got != want:
+            ctx.inconclusive('ForeachCounters.tla, obligation "%s": expected %s, Apalache says %s' % (name, want, got))
+        else:
+            proved += 1
+    ctx.cov(apalache_obligations=proved)
+
+
 def run(ctx):
     model_part(ctx)
+    unbounded_part(ctx)
     prof = dict(max_steps=2, p_tag=0.0)
     family.run_family_check(ctx, 'C13', n_quick=2, n_thorough=10, profile=prof, extra_items=items_for(ctx))
